@@ -172,6 +172,107 @@ def gen_batch_requests(tier, seed):
     return reqs
 
 
+# ------------------------------------------------------------------ clients in every connection state
+# (configuration, connection history): fresh; waiting for the first message; negotiation under way
+# (GetSupportedVersion / SetProtocolVersion outstanding); negotiated 1.1 (set, or already in use);
+# lowered to 1.0.1 (reader's maximum, by ErrorMessage, with and without SetProtocolVersion);
+# configured 1.0.1 (no negotiation); after an exchange; a request outstanding; CloseConnection sent;
+# Close called; read side ended (bad header, EOF, message after Close); with and without a timeout
+NEG11 = "conn,first,gsv:1:2,spv"
+STATES = [
+    ("v2", "-"), ("v1", "-"), ("v2t", "-"),
+    ("v2", "conn"), ("v1t", "conn"),
+    ("v2", "conn,first"), ("v2t", "conn,first"),
+    ("v2", "conn,first,gsv:1:2"), ("v2", "conn,first,gsv:2:1"),
+    ("v2", NEG11), ("v2t", NEG11), ("v2", "conn,first,gsv:2:2"),
+    ("v2", "conn,first,gsv:1:1"), ("v2", "conn,first,gsverr"), ("v2t", "conn,first,gsv:2:1,spv"),
+    ("v1", "conn,first"), ("v1t", "conn,first,xchg"),
+    ("v2", NEG11 + ",xchg"), ("v2", NEG11 + ",req"), ("v2", NEG11 + ",xchg,req,req"),
+    ("v2", NEG11 + ",sentclose"), ("v2", "conn,first,gsv:1:1,req,sentclose"),
+    ("v2", NEG11 + ",close"), ("v2t", "conn,first,gsv:1:1,close"), ("v1", "conn,first,close"), ("v2", "conn,close"),
+    ("v2", NEG11 + ",req,close"), ("v2", NEG11 + ",sentclose,close"),
+    ("v2", NEG11 + ",fail"), ("v2", NEG11 + ",eof"), ("v2", "conn,fail"), ("v1", "conn,first,eof"),
+    ("v2", NEG11 + ",close,recv:043e0000000a00000007"),
+]
+FULL_SWEEP_STATES = 12      # of STATES' live ones: every first-two-bytes value, directly through readHeader
+
+
+def wire(ver_bits6, typ, ln, mid, payload=b""):
+    """ver_bits6 = the six high bits of byte 0 (3 reserved + 3 version)"""
+    w = (ver_bits6 & 63) << 10 | (typ & 1023)
+    return bytes([w >> 8, w & 255] + be32(ln) + be32(mid)) + payload
+
+
+def state_headers(rnd, hist, n_types):
+    """messages for the read side of a client in some state: all 8 values of the version bits (and the
+    reserved bits) x a spread of types x payload sizes x ids, each complete; ids of types that can be
+    replies stay clear of the ids the client has issued itself.  Then messages that end a connection."""
+    types = [0, 1, 4, 11, 46, 47, 56, 57, 61, 62, 63, 72, 100, 899, 900, 999, 1000, 1023]
+    pick = rnd.sample(types, n_types) + [rnd.randrange(1024) for _ in range(2)]
+    out = []
+    for ver in range(8):
+        for k, typ in enumerate(pick):
+            resv = rnd.choice([0, 0, 1, 4, 7])
+            plen = rnd.choice([0, 0, 1, 4, 22, 300])
+            if typ in (61, 62, 63):
+                mid = rnd.choice([0, 1, 2, 1 << 31, M32 - 1, rnd.getrandbits(32)])
+            else:
+                mid = rnd.choice([1000 + rnd.getrandbits(20), 1 << 31, M32 - 1, 16 + rnd.getrandbits(31)])
+            out.append(wire(resv << 3 | ver, typ, 10 + plen, mid, bytes(rnd.getrandbits(8) for _ in range(plen))))
+    for ver in (0, 1, 2, 5):
+        out.append(wire(ver, 63, rnd.choice([0, 9]), 5))                       # rejected
+        out.append(wire(ver, 62, rnd.choice([M32 - 1, 10 + LIMIT + 1, 1 << 31]), 77))   # payload never completes
+    return out
+
+
+def gen_state_requests(tier, seed):
+    rnd = random.Random(seed ^ 0x57A7E)
+    thorough = tier == "thorough"
+    states = list(STATES)
+    # histories in which messages with foreign version bits were already read, and random tails
+    for _ in range(8 if thorough else 4):
+        tail = []
+        for _ in range(rnd.randrange(1, 5)):
+            k = rnd.random()
+            if k < 0.5:
+                tail.append("recv:" + wire(rnd.randrange(64), rnd.choice([61, 62, 63, 100, rnd.randrange(1024)]), 10 + 3,
+                                           1000 + rnd.getrandbits(24), b"\x01\x02\x03").hex())
+            else:
+                tail.append(rnd.choice(["xchg", "req"]))
+        end = rnd.choice([[], [], ["sentclose"], ["close"], ["req", "close"]])
+        pre = rnd.choice([NEG11, "conn,first,gsv:1:1", "conn,first,gsv:2:2", "conn,first,gsverr", "conn,first,gsv:2:1,spv"])
+        states.append((rnd.choice(["v2", "v2t"]), ",".join([pre] + tail + end)))
+    states.append(("v1", ",".join(["conn,first"] + ["recv:" + wire(v, 62, 10, 50 + v).hex() for v in range(8)] + ["close"])))
+    reqs = []
+    live_seen = 0
+    for k, (cfg, hist) in enumerate(states):
+        reading = hist != "-" and not any(e in hist for e in ("fail", "eof")) and "close,recv" not in hist
+        hdrs = state_headers(rnd, hist, 10 if thorough else 6) if reading else \
+            [wire(v, 62, 10, 3) for v in (1, 2, 7)]
+        for i in range(0, len(hdrs), 24):
+            reqs.append("stl %s %s %s" % (cfg, hist, ";".join(h.hex() for h in hdrs[i:i + 24])))
+        # readHeader called directly on that client: all 65536 first-two-bytes values on the main
+        # states (one boundary length + one id per block of values, rotating), a stride on the others
+        full = thorough or (reading and live_seen < FULL_SWEEP_STATES) or k < 3
+        live_seen += reading
+        block = 1024
+        for b, lo in enumerate(range(0, 1 << 16, block)):
+            if not full and b % 8 != k % 8:
+                continue
+            lens = dedup([10, DEC_LENS[(b + k) % len(DEC_LENS)]])
+            ids = [(FIXED_IDS + [rnd.getrandbits(32)])[(b + 2 * k) % 5]]
+            reqs.append("std %s %s 1 %d %d %s %s" % (cfg, hist, lo, lo + block - 1, csv(lens), csv(ids)))
+        # writeHeader called directly on that client: all 8 versions x all 1024 types
+        for ver in range(8):
+            if not full and ver % 4 != k % 4:
+                continue
+            reqs.append("stw %s %s %d 0 1023 %d %d" % (cfg, hist, ver, ENC_LENS[(ver + k) % 4], (FIXED_IDS + [rnd.getrandbits(32)])[(ver + k) % 5]))
+        # a connection that refuses read deadlines matters to clients with a timeout only
+        lo = rnd.randrange(0, (1 << 16) - 64)
+        reqs.append("std %s %s 0 %d %d %s %s" % (cfg, hist, lo, lo + 63, csv([10, 9]), csv([rnd.getrandbits(32)])))
+    return reqs, len(states)
+
+
 def gen_requests(tier, seed):
     rnd = random.Random(seed)
     thorough = tier == "thorough"
@@ -241,6 +342,16 @@ def expand(req):
     if f[0] in ("rfg", "pip"):
         return [dict(kind="rfg", via=f[0], bytes=list(bytes.fromhex("" if f[1] == "-" else f[1])), pats=f[2].split(","),
                      consumed=f[0] == "rfg")]
+    if f[0] == "stl":
+        return [dict(kind="sth", cfg=f[1], hist=f[2], request=req)] + \
+               [dict(kind="stl", cfg=f[1], hist=f[2], bytes=list(bytes.fromhex(h))) for h in f[3].split(";")]
+    if f[0] == "stw":
+        return [dict(kind="stw", cfg=f[1], hist=f[2], ver=int(f[3]), typ=t, len=l, id=i)
+                for t in range(int(f[4]), int(f[5]) + 1) for l in map(int, f[6].split(",")) for i in map(int, f[7].split(","))]
+    if f[0] == "std":
+        return [dict(kind="stv", cfg=f[1], hist=f[2], request=req)] + \
+               [dict(kind="std", cfg=f[1], hist=f[2], dl=int(f[3]), bytes=[w >> 8, w & 255] + be32(l) + be32(i))
+                for w in range(int(f[4]), int(f[5]) + 1) for l in map(int, f[6].split(",")) for i in map(int, f[7].split(","))]
     if f[0] == "enc":
         return [dict(kind="enc", ver=int(f[1]), typ=int(f[2]), len=l, id=i)
                 for l in map(int, f[3].split(",")) for i in map(int, f[4].split(","))]
@@ -250,6 +361,16 @@ def expand(req):
 def single_request(case):
     if case.get("batch"):
         return case["batch"]
+    if case["kind"] in ("sth", "stv"):
+        return case["request"]
+    if case["kind"] == "stl":
+        return "stl %s %s %s" % (case["cfg"], case["hist"], bytes(case["bytes"]).hex())
+    if case["kind"] == "stw":
+        return "stw %s %s %d %d %d %d %d" % (case["cfg"], case["hist"], case["ver"], case["typ"], case["typ"], case["len"], case["id"])
+    if case["kind"] == "std":
+        bs = case["bytes"]
+        return "std %s %s %d %d %d %d %d" % (case["cfg"], case["hist"], case["dl"], bs[0] << 8 | bs[1], bs[0] << 8 | bs[1],
+                                             int.from_bytes(bytes(bs[2:6]), "big"), int.from_bytes(bytes(bs[6:10]), "big"))
     if case["kind"] == "rfg":
         return "%s %s %s" % (case["via"], bytes(case["bytes"]).hex() or "-", ",".join(case["pats"]))
     if case["kind"] == "dec":
@@ -260,6 +381,8 @@ def single_request(case):
 def judge_case(case, g, o):
     """batch members: the kept result of call number [index] of the batch is judged like a single
     call (the property does not depend on what else was encoded or decoded meanwhile)"""
+    if case["kind"] in ("sth", "stv", "stl", "std", "stw"):
+        return judge_state(case, g, o)
     if not case.get("batch"):
         return judge_single(case, g, o)
     f = case["batch"].split(" ", 3)
@@ -275,6 +398,94 @@ def judge_case(case, g, o):
     if found:
         sig = "retained-result:" + sig
     return (sig, ctx + what, found)
+
+
+def describe_state(cfg, hist):
+    return "a Client (LLRP version %s%s) after the connection history [%s]" % (
+        {"1": "1.0.1", "2": "1.1"}.get(cfg[1], cfg[1]), ", with a timeout" if cfg.endswith("t") else "",
+        "none: never connected" if hist == "-" else hist)
+
+
+def judge_decoded(where, got, bs, ctx):
+    """one header decoded by a client in some state (got = 'v.t.l.i' or 'E'/'T') against the bit-level
+    reading of its bytes; None if it is what the property says"""
+    want = spec_decode(bs[:10])
+    if got == want:
+        return None
+    hexs = bytes(bs[:10]).hex() + ("+%d payload bytes" % (len(bs) - 10) if len(bs) > 10 else "")
+    if got == "T":
+        return ("state-dependent-decode:no-answer:" + where, "%s: %s given %s neither reports a header nor gives up" % (ctx, where, hexs), True)
+    if want == "E":
+        return ("state-dependent-decode:accepts-bad:" + where, "%s: %s accepts header %s (declared length below 10): %s" % (ctx, where, hexs, got), True)
+    if got == "E" or got.count(".") != 3:
+        return ("state-dependent-decode:rejects-good:" + where,
+                "%s: %s rejects header %s; its bytes read %s (bits 3-5 / low 10 bits / be32-10 / be32), which is what a Client without this history decodes" % (
+                    ctx, where, hexs, want), True)
+    fields = ["version", "type", "length", "id"]
+    diff = [fields[k] for k, (a, b) in enumerate(zip(got.split("."), want.split("."))) if a != b]
+    return ("state-dependent-decode:wrong:%s:%s" % (where, "+".join(diff)), "%s: %s decodes %s to %s, the bytes say %s" % (ctx, where, hexs, got, want), True)
+
+
+def judge_state(case, g, o):
+    """a client driven into a connection state: the header it decodes must be the bit-level reading of
+    the 10 bytes whatever the state; the state itself (version held, closed, reading or not) is
+    only compared with the model"""
+    ctx = describe_state(case["cfg"], case["hist"])
+    if case["kind"] == "sth":
+        # headers the read side reported for the recv events of the history
+        sent = [bytes.fromhex(e[5:]) for e in case["hist"].split(",") if e.startswith("recv:")]
+        got = g[2:].split(",") if len(g) > 2 else []
+        for bs, tok in zip(sent, got):
+            tok = tok.replace("!nh", "")
+            tok, _, handler = tok.partition("!h=")
+            v = judge_decoded("read-side", tok, list(bs), ctx + ", reading the history's message " + bs.hex())
+            if v:
+                return v
+            if handler:
+                return ("state-dependent-decode:handler-header-differs", "%s: the read side reports header %s for %s but offers its handler %s" % (
+                    ctx, tok, bs.hex(), handler), True)
+        return ("model-mismatch:client-state", "%s: the read side reported %r for the history's messages, the model %r "
+                "(each reported header is the bit-level reading of its bytes)" % (ctx, g, o), False)
+    if case["kind"] == "stv":
+        return ("model-mismatch:client-state", "%s holds version/closed %s, the model of the history says %s" % (ctx, g, o), False)
+    bs = case.get("bytes")
+    if case["kind"] == "stl":
+        if g == "-" or o == "-":
+            return ("model-mismatch:client-state", "%s: %s; the model says %s" % (
+                ctx, "nothing reads the connection" if g == "-" else "the read side answers " + g, "the same" if g == o else o), False)
+        not_offered = g.endswith("!nh")
+        tok, _, handler = g.replace("!nh", "").partition("!h=")
+        dec, _, ver = tok.partition("@")
+        v = judge_decoded("read-side", dec, bs, ctx)
+        if v:
+            return v
+        if handler:
+            return ("state-dependent-decode:handler-header-differs", "%s: the read side reports header %s for %s but offers its handler %s" % (
+                ctx, dec, bytes(bs[:10]).hex(), handler), True)
+        if not_offered != o.endswith("!nh"):
+            return ("model-mismatch:message-not-offered", "%s decodes %s as the bytes say (%s) and then %s (model: %s)" % (
+                ctx, bytes(bs[:10]).hex(), dec, "gives the message to no handler although one is registered for every type" if not_offered
+                else "offers it to a handler", o), False)
+        return ("model-mismatch:client-state", "%s decodes %s as the bytes say (%s) while holding version %s; the model says %s" % (
+            ctx, bytes(bs[:10]).hex(), dec, ver or "?", o), False)
+    if case["kind"] == "stw":
+        # writeHeader does not validate; where the encoder would accept the header the bytes are fixed
+        want = spec_encode(case["ver"], case["typ"], case["len"], case["id"])
+        desc = "Header{version:%d typ:%d payloadLen:%d id:%d}" % (case["ver"], case["typ"], case["len"], case["id"])
+        if want not in (None, "E") and g != want:
+            back = spec_decode(list(bytes.fromhex(g))) if re.fullmatch(r"[0-9a-f]{20}", g) else "unreadable"
+            return ("state-dependent-encode:writeHeader", "%s: writeHeader(%s) writes %s, which reads back as %s; a Client in any other state writes %s" % (
+                ctx, desc, g, back, want), True)
+        return ("model-mismatch:client-state", "%s: writeHeader(%s) writes %s, the model %s (the property does not fix these bytes)" % (ctx, desc, g, o), False)
+    # std: readHeader called directly
+    if case["dl"] == 0 and case["cfg"].endswith("t"):
+        if g == "E":
+            return ("model-mismatch:client-state", "%s: readHeader over a connection that refuses deadlines fails, model says %s" % (ctx, o), False)
+        return ("model-mismatch:deadline", "%s: readHeader returns %s although the connection refused the read deadline (model: %s)" % (ctx, g, o), False)
+    v = judge_decoded("readHeader", g, bs, ctx + (" (connection refuses read deadlines, no timeout configured)" if case["dl"] == 0 else ""))
+    if v:
+        return v
+    return ("model-mismatch:client-state", "%s: readHeader(%s) = %s as the bytes say, the model says %s" % (ctx, bytes(bs).hex(), g, o), False)
 
 
 def judge_single(case, g, o):
@@ -525,6 +736,9 @@ def run(tier, seed, replay=None):
         "the table dump is produced by the harness from the running code (IsValid, Converse, NewInstance().Type(), isResponseTo for all 1024 codes); the text of generated Coq files is written by checks/c19.py",
         "batches: the harness keeps what the entry points return without copying and reads it after the batch; goroutine interleavings are whatever the Go scheduler produces in that run (Gosched between calls), not enumerated",
         "fragmented delivery: a net.Conn whose Read returns at most the rest of the current piece (io.Reader contract; empty pieces are skipped on the Go side), modelled by read_full over a list of chunks; net.Pipe hands each Write to separate Reads",
+        "connection states: the peer of the state scenarios is the harness's own in-memory net.Conn (c19Link) speaking the library's dialect of GetSupportedVersionResponse (version << 5); "
+        "a state is 'reached' when the read side is parked in Read with everything sent consumed (or Connect has returned); readHeader is called directly only while the read side is parked; "
+        "the states covered are the listed histories plus random ones, not all reachable states - that every state gives the same decoding is the theorem C19_read_header_any_state over the model's state record",
         "the Header version field (uint8) is not refused by the encoder when above 7; the property does not demand it (Example C19_note_version_unchecked)",
     ]
     pr = vlib.proof_part(res, PID)
@@ -548,10 +762,15 @@ def run(tier, seed, replay=None):
     stats = tables_part(res, exe) if do_tables else None
     if do_tables and stats is None:
         return res.finish()
+    n_states = 0
     if reqs is None:
-        reqs = gen_requests(tier, seed) + gen_batch_requests(tier, seed) + gen_frag_requests(tier, seed)
+        st_reqs, n_states = gen_state_requests(tier, seed)
+        reqs = gen_requests(tier, seed) + gen_batch_requests(tier, seed) + gen_frag_requests(tier, seed) + st_reqs
+        # the list is answered in 4 contiguous parts: deal the requests out so that every part gets
+        # an even share of every kind
+        reqs = [r for k in range(4) for r in reqs[k::4]]
 
-    evals = nontriv = frag_headers = batch_samples = 0
+    evals = nontriv = frag_headers = batch_samples = state_samples = 0
     dist, samples = {}, []
     if reqs:
         text = "\n".join(reqs) + "\n"
@@ -600,6 +819,15 @@ def run(tier, seed, replay=None):
                 dist[kind] = dist.get(kind, 0) + ntok * npat
                 nontriv += (ntok - rej) * npat
                 frag_headers += ntok
+            elif kind in ("stl", "std", "stw"):
+                # one evaluation per header handed to a client in a connection state
+                toks = g.split(" ")[0 if kind == "stw" else 1:]
+                evals += len(toks)
+                dist[kind] = dist.get(kind, 0) + len(toks)
+                nontriv += sum(1 for t in toks if "." in t or len(t) == 20)
+                if state_samples < 4 and (kind == "stl" or " 0 " in req) and state_samples % 2 == (kind == "std"):
+                    state_samples += 1
+                    samples.append(dict(request=req[:400], go=g[:260], model=o[:260]))
             else:
                 evals += ntok
                 dist[kind] = dist.get(kind, 0) + ntok
@@ -623,7 +851,8 @@ def run(tier, seed, replay=None):
                 continue
             diffs = [(case, a, b) for case, a, b in zip(cases, gt, ot) if a != b]
             # prefer a witness whose header is a valid one (more telling than a rejected one)
-            diffs.sort(key=lambda d: d[0]["kind"] == "rfg" and spec_decode(d[0]["bytes"][:10]) == "E")
+            diffs.sort(key=lambda d: (d[0]["kind"] == "rfg" and spec_decode(d[0]["bytes"][:10]) == "E",
+                                      len(d[0]["bytes"]) if d[0]["kind"] == "stl" else 0))
             for case, a, b in diffs:
                 sig, what, found = judge_case(case, a, b)
                 if sig in seen_sig:
@@ -665,10 +894,16 @@ def run(tier, seed, replay=None):
              "evaluation per (header, pattern); batches = value semantics of the entry points: 2..1024 calls whose results (MarshalBinary's slice, "
              "the WriteTo writer, the writeHeader connection, decode targets) are kept, not copied, and read only after the whole batch, made "
              "call-by-call, item-by-item and from 2..16 goroutines, arguments compared before/after, one returned slice overwritten by the caller, "
-             "one scratch buffer reused for all decodes; one evaluation per batch member; table cases = the 1024 type codes. "
+             "one scratch buffer reused for all decodes; one evaluation per batch member; connection states = a real Client taken through "
+             "each of %d (configuration, connection history) pairs over an in-memory connection by a peer with its own frame code (fresh, waiting "
+             "for the first message, negotiation under way, negotiated 1.1, lowered to 1.0.1, configured 1.0.1, after exchanges, request outstanding, "
+             "CloseConnection sent, Close called, read side ended; with/without timeout; random histories with messages of foreign version bits "
+             "already read): stl = messages with all 8 version-bit values x types x payload sizes x ids handed to its read side (observed: header "
+             "given to the logger and to the handler, version held), std = readHeader called directly on that client while its read side is parked "
+             "(all 2^16 first-two-bytes values on the main states, a stride on the others), stw = writeHeader called directly (8 versions x 1024 types); one evaluation per header; table cases = the 1024 type codes. "
              "All cases of a run are distinct by construction (lists de-duplicated). Non-trivial: a header case that the implementation "
-             "accepts (answer is not E), a table code that can be instantiated; counted from the Go answers." % (DEC_LENS, ENC_LENS),
+             "accepts (answer is not E), a table code that can be instantiated; counted from the Go answers." % (DEC_LENS, ENC_LENS, n_states),
         samples=samples, input_distribution=dist, traces_validated_against_impl=evals,
-        trusted_base=res.assumptions, exhaustive=full, fragmented_headers=frag_headers, fragmentation_patterns=len(ALL_PATS),
+        trusted_base=res.assumptions, exhaustive=full, connection_states=n_states, fragmented_headers=frag_headers, fragmentation_patterns=len(ALL_PATS),
         exhaustive_over="first two header bytes (2^16) x the boundary length/id grid; versions 0..7 x types 0..1023 for encoding; all 1024 type codes" if full else "replay only")
     return res.finish()
